@@ -541,7 +541,7 @@ pub fn parts() -> Vec<Box<dyn PartDyn>> {
     vec![Box::new(Part::<Case> {
         name: "e2e",
         rule: "sessions with 0-4 open channels (a thread each, 0-3 consumers, optionally racing numbered nowait publishes and synchronous calls against the close), closed after 0-3 ms either by the client (server follow-up: CloseOk / CloseOk then EOF in a later read / CloseOk and EOF in the same read / deliveries then CloseOk) or by the server (arbitrary reply code and text, socket closed or kept after the client's CloseOk), optionally with the transport stalled at the moment of closing and released 3 ms later; oracle: client close - exactly one Connection.Close(200, goodbye, 0, 0) and it is the last frame, close returns Ok in all four follow-up variants, every channel's first error is ClientClosedConnection, every consumer ends with ClientClosedConnection and is disconnected; server close - CloseOk is the last frame (exactly one), every channel's first error / every consumer / Connection::close carry ServerClosedConnection{code, text}; both - later calls fail, whole frames only, each channel's racing publishes appear as #0..#m without gaps or reordering and none that was not issued; non-trivial = a channel with a consumer and (racing ops or stalled transport or the same-read EOF variant); distinct by case hash",
-        cases: |t| t.pick(1000, 25_000),
+        cases: |t| t.pick(2000, 30_000),
         threads: 10,
         strategy: strat,
         exec,
